@@ -383,6 +383,11 @@ def handleE2E (i o : List String) : String :=
 def handle : Handler
   | ["tbl", c], [out] => handleTbl c out
   | "cvt" :: [e], out => handleCvt e out
+  -- the implementation crashed / hung / panicked on this request: never an acceptable outcome
+  | "e2e" :: _, "CRASH" :: why => s!"VIOL process-crash (Go runtime fatal error while serving this request) {" ".intercalate (why.map (fun h => (parseHex h).map bytesToString |>.getD h))}"
+  | "e2e" :: _, "HANG" :: why => s!"VIOL hang {" ".intercalate (why.map (fun h => (parseHex h).map bytesToString |>.getD h))}"
+  | "e2e" :: _, "PANIC" :: why => s!"VIOL panic {" ".intercalate (why.map (fun h => (parseHex h).map bytesToString |>.getD h))}"
+  | "e2e" :: _, "SRVERR" :: why => s!"VIOL server-connection-failed {" ".intercalate (why.map (fun h => (parseHex h).map bytesToString |>.getD h))}"
   | "e2e" :: i, o => handleE2E i o
   | _, _ => "BAD c10 line"
 
